@@ -17,7 +17,7 @@ enum K {
 }
 
 /// (path, kind, benign). `@OUT` in a path is replaced by the absolute path of the outside directory.
-const ENTRIES: [(&str, K, bool); 28] = [
+const ENTRIES: [(&str, K, bool); 33] = [
     ("a", K::File, true),
     ("b", K::Exe, true),
     ("d/f", K::File, true),
@@ -35,6 +35,12 @@ const ENTRIES: [(&str, K, bool); 28] = [
     ("l/config", K::File, false),
     ("l/sub/f", K::File, false),
     ("l/ln", K::Link("a"), false),
+    // several children below the same hostile symlink (the first one being refused must not vet the symlink for the next ones)
+    ("l/ln2", K::Link("b"), false),
+    ("l/ln3", K::Link("nowhere"), false),
+    ("l/sub/ln", K::Link("../a"), false),
+    ("l/ln/c", K::File, false), // nested below the former leaf `l/ln`
+    ("d/up2", K::Link("../b"), false),
     // direct attacks on the repository directory and on the outside
     (".git/config", K::File, false),
     (".git/hooks/x", K::Exe, false),
@@ -211,13 +217,15 @@ fn eval(c: &Case, escapes_attempted: &AtomicU64) -> Verdict {
         });
         // ... and additionally a non-symlink entry below `P`, with overwrite_existing: the checkout first creates the directory `P`, then
         // replaces it (remove_dir_all) by the delayed symlink `P`, while the path stack still believes `P` is a verified directory
+        // With more than one thread the delayed symlinks are collected per chunk in completion order, so `P` may also be processed after
+        // some `P/x` symlinks (which made `P` a real directory) and replace that directory just the same.
         let replaced_directory = symlink_pair
             && c.overwrite_existing
-            && c.entries.iter().any(|&i| {
+            && (c.threads > 1 || c.entries.iter().any(|&i| {
                 let (p, k, _) = ENTRIES[i as usize];
                 matches!(k, K::Link(_))
                     && c.entries.iter().any(|&j| !matches!(ENTRIES[j as usize].1, K::Link(_)) && ENTRIES[j as usize].0.starts_with(&format!("{p}/")))
-            });
+            }));
         if replaced_directory {
             let class = if d.contains("dest/.git") { "wrote-into-git-dir-via-replaced-directory" } else { "escaped-destination-via-replaced-directory" };
             return bad(class, format!("{desc}: checkout {d} (result: {})", res.as_ref().map(|_| "ok".to_string()).unwrap_or_else(|e| e.to_string())));
@@ -262,10 +270,10 @@ fn eval(c: &Case, escapes_attempted: &AtomicU64) -> Verdict {
 
 pub fn run(run: &'static Run) {
     run.rule(
-        "index = every set of <=2 (quick) / <=3 (thorough) entries with distinct paths out of 28 templates: benign {a, b(exe), d/f, A, s->d, d/up->../a, dangling link}; \
-         symlink `l` -> {d, .., ../outside/vd, <abs outside>/vd, .git} combined with entries l/f, l/config, l/sub/f, l/ln (symlink) that traverse it; direct attacks {.git/config, .git/hooks/x, .GIT/config, git~1/config, .git as symlink, \
+        "index = every set of <=2 (quick) / <=3 (thorough) entries with distinct paths out of 33 templates: benign {a, b(exe), d/f, A, s->d, d/up->../a, dangling link}; \
+         symlink `l` -> {d, .., ../outside/vd, <abs outside>/vd, .git} combined with entries l/f, l/config, l/sub/f, l/ln, l/ln2, l/ln3, l/sub/ln (symlinks), l/ln/c that traverse it, plus (both tiers) every hostile symlink with every set of 2..3 (quick) / 2..4 (thorough) entries below it; direct attacks {.git/config, .git/hooks/x, .GIT/config, git~1/config, .git as symlink, \
          ../outside/escape, d/../../outside/escape, <abs outside>/escape}; D/F conflicts {a + a/b, d/f + d as symlink to outside, b + b/x}; symlinked .gitmodules; \
-         x destination {empty, pre-populated with symlinks a,d,l pointing outside and a stale file} x overwrite_existing x keep_going x (thread_limit, validation) in {(1,all),(1,minimal),(2,all)}; \
+         x destination {empty, pre-populated with symlinks a,d,l pointing outside and a stale file} x overwrite_existing x keep_going x (thread_limit, validation) in {(1,all),(1,minimal),(2,all)} (quick: family only into the empty destination, other indices without `minimal`); \
          oracle: full snapshot (paths, types, modes, contents, link targets) of the sandbox outside the destination and of dest/.git is identical before and after; benign indices into an empty destination are reproduced exactly (content, exec bit, link target, no errors); \
          non-trivial = the index is non-empty",
     );
@@ -279,12 +287,36 @@ pub fn run(run: &'static Run) {
         vkit::Opts::default().chunk(2048).watchdog(60.0),
         |emit| {
             let idx: Vec<u8> = (0..ENTRIES.len() as u8).collect();
-            enumerate::subsets(&idx, 0, if quick { 2 } else { 3 }, |set| {
+            let mut base: Vec<Vec<u8>> = Vec::new();
+            enumerate::subsets(&idx, 0, if quick { 2 } else { 3 }, |set| base.push(set.to_vec()));
+            let mut sets: Vec<Vec<u8>> = Vec::new();
+            // family (both tiers): every hostile symlink `P` together with every set of 2..3 (quick) / 2..4 (thorough) entries below `P/`
+            let mut seen: std::collections::HashSet<Vec<u8>> = base.iter().cloned().collect();
+            for &p in &idx {
+                let (ppath, pkind, benign) = ENTRIES[p as usize];
+                if benign || !matches!(pkind, K::Link(_)) {
+                    continue;
+                }
+                let children: Vec<u8> = idx.iter().copied().filter(|&j| ENTRIES[j as usize].0.starts_with(&format!("{ppath}/"))).collect();
+                enumerate::subsets(&children, 2, if quick { 3 } else { 4 }, |ch| {
+                    let mut set = ch.to_vec();
+                    set.push(p);
+                    set.sort();
+                    if seen.insert(set.clone()) {
+                        sets.push(set);
+                    }
+                });
+            }
+            let n_family = sets.len();
+            sets.extend(base);
+            for (k, set) in sets.iter().enumerate() {
+                let family = k < n_family;
+                let set = &set[..];
                 // distinct paths only
                 let mut paths: Vec<&str> = set.iter().map(|&i| ENTRIES[i as usize].0).collect();
                 paths.sort();
                 if paths.windows(2).any(|w| w[0] == w[1]) {
-                    return;
+                    continue;
                 }
                 for prepopulated in [false, true] {
                     for overwrite_existing in [false, true] {
@@ -294,13 +326,17 @@ pub fn run(run: &'static Run) {
                                     if threads == 2 && validate == 1 {
                                         continue;
                                     }
+                                    // quick: the family only into an empty destination; the base sets with (1,all) and (2,all) only
+                                    if quick && ((family && prepopulated) || (!family && validate == 1)) {
+                                        continue;
+                                    }
                                     emit(Case { entries: set.to_vec(), prepopulated, overwrite_existing, keep_going, threads, validate });
                                 }
                             }
                         }
                     }
                 }
-            });
+            }
         },
         |c: &Case| eval(c, &attempted),
     );
